@@ -159,6 +159,41 @@ CHECKS["C11"] = dict(
     technique="translator (tables regenerated from source) + Lean 4 theorems over the generated tables + round-trip correspondence",
 )
 
+CHECKS["C03"] = dict(
+    category="proof",
+    text="The specification of islaspec.rst is transcribed as a Prop-valued satisfaction relation Sat (tree quantifiers with and without match "
+    "expressions over ALL matching (path, subtree) pairs of any branching degree, numeric quantifiers over ALL naturals, the nine structural "
+    "predicates, count, SMT-LIB atoms, connectives) and an executable reference evaluator evalRef is proved sound for it for every grammar, tree, "
+    "environment and formula (evalRef_sound: a definite answer IS the truth value of Sat; domain_exact: the enumerated quantifier domain is exactly "
+    "the labelled nodes of the in-tree; match = the spec's match function). The real evaluate() and ISLaSolver.check() are tied to it per input: "
+    "generated constraints in concrete syntax x closed trees (incl. 34-children nodes, both evaluation strategies); a different verdict, UNKNOWN "
+    "where the reference decides, or any exception is a failing input of the property.",
+    design_ref="DESIGN.md section 7 C03",
+    note="The implementation's own evaluation procedure (evaluate_legacy / quantifier elimination) is NOT modelled: it is validated per explored "
+    "input against the proved reference (translation-validation style). The reference evaluates the formula object produced by parse_isla "
+    "(concrete syntax -> formula is C07/C08) and takes match-expression trees from ISLa's own parse of the match expression. Numeric quantifiers: "
+    "the reference searches 0..tree size+16 and is conclusive only when that search is (otherwise the case is skipped and counted). Atoms are "
+    "judged by the verified models of C04/C05/C20.",
+    technique="Lean 4 theorem (reference evaluator sound w.r.t. the Prop-valued specification) + per-input differential validation of evaluate()/check()",
+)
+
+CHECKS["C01"] = dict(
+    category="proof",
+    text="The solver (a cost-guided search around Z3) is not modelled. What is proved is the certifier every returned tree is passed through: "
+    "certify_sound - acceptance implies, for EVERY grammar, formula and tree, that the tree is a closed derivation tree of the grammar rooted in "
+    "the requested start symbol, that its string is in the language of that symbol (InLang of C10) and that it satisfies the constraint under "
+    "the Prop-valued specification Sat of islaspec.rst (evalRef_sound of C03); reject_false - a tree rejected with verdict false really violates "
+    "the specification. Tie: the real solver runs on documented and generated problems under a grid of settings (free/SMT instantiation limits, "
+    "optimized Z3 queries on/off, unique trees, tree insertion methods 1..7, unsat support, start_symbol), solve() is called up to 5 times, and "
+    "EVERY returned tree of every call sequence is certified by the compiled checker; a rejected tree is a failing input.",
+    design_ref="DESIGN.md section 7 C01",
+    note="Assurance for the solver itself is per explored output (translation-validation style): nothing is claimed for unexplored problems. "
+    "The oracle is the proved Lean checker, not ISLa's evaluator. The formula checked is the object the solver holds (concrete syntax -> formula "
+    "is C07/C08). Numeric quantifiers: conclusive only within the bounded search (else counted as undecided). Solver timeouts / the 45 s wall "
+    "guard give no verdict.",
+    technique="Lean 4 theorem about a solution certifier (soundness w.r.t. derivation-tree validity and the Sat specification) + certification of every tree returned by the real solver",
+)
+
 NOT_APPLICABLE = {
     "C22": "reproducibility across fresh processes depends on hash randomisation, Z3 seeds/timeouts and wall-clock time; a functional Lean model would prove determinism vacuously and no executable model can exhibit the failure (DESIGN.md section 8)",
 }
